@@ -353,6 +353,23 @@ pub fn build_cases(prop: &str, tier: &str, seed: u64, pools: &Pools) -> Vec<Case
             }
         }
     }
+    // the edges of the four-digit-year range: year 0000 / 0001 (past) and instants whose UTC reading lies BEYOND year 9999
+    // while their local rendering (negative offset) is still a valid four-digit-year string (future)
+    for &p in &[P::V4L, P::V2L, P::V4P] {
+        for (t, past) in [(-62_167_219_200i64, true), (-62_135_683_200, true), (-62_135_596_800, true), (-62_167_132_801, true), (253_402_300_799, false), (253_402_300_800, false), (253_402_300_859, false), (253_402_304_400, false), (253_402_387_139, false)] {
+            for off in (-1439..=1439i32).filter(|o| o % 7 == 0 || o.abs() <= 2 || o.abs() >= 1438) {
+                let ly = civil_from_days((t + off as i64 * 60).div_euclid(86400)).0;
+                if !(0..=9999).contains(&ly) {
+                    continue;
+                }
+                for frac in [0usize, 9] {
+                    let nanos = (rng.next() % 1_000_000_000) as u32;
+                    let class = if past { "strict-past" } else { "strict-future" };
+                    cases.push(mk(p, Val::Time { when: When::Abs(t), nanos, off_min: off, frac, style: Style::Strict }, class, Val::Absent));
+                }
+            }
+        }
+    }
     // sampled renderings on the other protocols
     let nsample = if thorough { 60_000 } else { 500 };
     for &p in &ALL {
@@ -701,4 +718,4 @@ pub fn replay(prop: &str, case: &Value) -> Report {
     r
 }
 
-pub const RULE: &str = "payloads {\"exp\"|\"nbf\": value} are crafted at the core layer and parsed with PasetoParser::default(). Values: 21 instants (now-2s, -1min, -1h, -1d, -1y, 2000-01-01, 1971; now+60s, +1h, +1d, +1y, 2999, 9000-01-01, and now + {2^31, 2^32 seconds, 2^63 ns -/+ 1 min, 475 y, 2^64 ns, 3170 y}) rendered by the harness's own calendar arithmetic with EVERY UTC offset -23:59..+23:59 x 0..9 fractional digits (strict grammar), 'Z', '-00:00' and lenient variants (space / 't' separators and 'z', each also combined with 'Z') — full space on v4.local (thorough: all four local protocols and v2/v4 public), 500 (thorough 60000) sampled renderings on each other protocol; a catalogue of ~90 non-timestamp values (numbers, booleans, arrays, objects, empty string, near-miss date strings — impossible months/days/hours, ISO 8601 forms that RFC 3339 excludes — each in the future (2999) and in the past (2001)) plus random text; null; absent; a sample of the strict cases and the grid once more with check_claim(<the token's own value>) registered on the default parser (the time check must still apply); C12 additionally the 3x3 grid of (exp, nbf) in {past, future, absent} x 3 offsets. Plus a VIRTUAL-CLOCK sweep through the hook verif::set_now: 225 (thorough 3025) values of 'now' (year/leap-day boundaries, 2^31/2^32 s, the i64-nanosecond limit 2262-04-11, up to year 8999, random, odd sub-second parts) x 27 distances from +-1 ns to +-950 years x sampled offsets, all with 9 fraction digits: exp accepted iff instant > now, nbf accepted iff instant < now (== now not decided). Plus clock-progress histories on all 8 protocols: a claim 1.5 s in the future is parsed, 2.6 s pass, and the SAME parser object (and a fresh one) must now give the opposite answer — also when the last parse before the pause was a REFUSED one (a clock reading kept from a failing parse must not judge the next). Oracle: instant known by construction; strict renderings decide both ways, lenient renderings must merely never be accepted when out of window. distinct_nontrivial = distinct (protocol, outcome, class, instant, offset, fraction length, style) tuples";
+pub const RULE: &str = "payloads {\"exp\"|\"nbf\": value} are crafted at the core layer and parsed with PasetoParser::default(). Values: 21 instants (now-2s, -1min, -1h, -1d, -1y, 2000-01-01, 1971; now+60s, +1h, +1d, +1y, 2999, 9000-01-01, and now + {2^31, 2^32 seconds, 2^63 ns -/+ 1 min, 475 y, 2^64 ns, 3170 y}; plus the edges of the four-digit-year range: 0000-01-01, 0000-12-31, 0001-01-01 and instants at / just beyond 9999-12-31T23:59:59Z rendered with the (negative) offsets that keep the local year at 9999) rendered by the harness's own calendar arithmetic with EVERY UTC offset -23:59..+23:59 x 0..9 fractional digits (strict grammar), 'Z', '-00:00' and lenient variants (space / 't' separators and 'z', each also combined with 'Z') — full space on v4.local (thorough: all four local protocols and v2/v4 public), 500 (thorough 60000) sampled renderings on each other protocol; a catalogue of ~90 non-timestamp values (numbers, booleans, arrays, objects, empty string, near-miss date strings — impossible months/days/hours, ISO 8601 forms that RFC 3339 excludes — each in the future (2999) and in the past (2001)) plus random text; null; absent; a sample of the strict cases and the grid once more with check_claim(<the token's own value>) registered on the default parser (the time check must still apply); C12 additionally the 3x3 grid of (exp, nbf) in {past, future, absent} x 3 offsets. Plus a VIRTUAL-CLOCK sweep through the hook verif::set_now: 225 (thorough 3025) values of 'now' (year/leap-day boundaries, 2^31/2^32 s, the i64-nanosecond limit 2262-04-11, up to year 8999, random, odd sub-second parts) x 27 distances from +-1 ns to +-950 years x sampled offsets, all with 9 fraction digits: exp accepted iff instant > now, nbf accepted iff instant < now (== now not decided). Plus clock-progress histories on all 8 protocols: a claim 1.5 s in the future is parsed, 2.6 s pass, and the SAME parser object (and a fresh one) must now give the opposite answer — also when the last parse before the pause was a REFUSED one (a clock reading kept from a failing parse must not judge the next). Oracle: instant known by construction; strict renderings decide both ways, lenient renderings must merely never be accepted when out of window. distinct_nontrivial = distinct (protocol, outcome, class, instant, offset, fraction length, style) tuples";
